@@ -266,7 +266,8 @@ class Parser:
         self.call_invalid_rules = False
 
         self.filename = filename
-        self.py_version = min(py_version, sys.version_info) if py_version else sys.version_info
+        # compare with the numeric part only: a py_version of four or more integers would meet the release-level string
+        self.py_version = min(tuple(py_version), tuple(sys.version_info[:3])) if py_version else sys.version_info
 
     def showpeek(self) -> str:
         tok = self._tokenizer.peek()
